@@ -70,6 +70,8 @@ struct DevSpec {
     no_access: Vec<(i64, u64)>,
     no_write: Vec<(i64, u64)>,
     rej_w: Vec<u64>,
+    /// non-atomic rejections: (write attempt ordinal, leading bytes applied, junk appended)
+    rej_p: Vec<(u64, usize, Vec<u8>)>,
 }
 
 #[derive(Clone, Debug, PartialEq)]
@@ -166,7 +168,8 @@ fn ranges_str(rs: &[(i64, u64)]) -> String {
 }
 
 fn dev_str(d: &DevSpec) -> String {
-    format!("{}/{}/{}/{}", hex(&d.mem), ranges_str(&d.no_access), ranges_str(&d.no_write), list_str(&d.rej_w))
+    let rp = if d.rej_p.is_empty() { "-".to_string() } else { d.rej_p.iter().map(|(k, m, j)| format!("{k}:{m}:{}", hex(j))).collect::<Vec<_>>().join(",") };
+    format!("{}/{}/{}/{}/{}", hex(&d.mem), ranges_str(&d.no_access), ranges_str(&d.no_write), list_str(&d.rej_w), rp)
 }
 
 fn val_str(v: &ValS) -> String {
@@ -268,7 +271,11 @@ fn p_ranges(s: &str) -> Vec<(i64, u64)> {
 
 fn p_dev(s: &str) -> DevSpec {
     let f: Vec<&str> = s.split('/').collect();
-    DevSpec { mem: unhex(f[0]), no_access: p_ranges(f[1]), no_write: p_ranges(f[2]), rej_w: p_list(f[3], ',', |x| x.parse().unwrap()) }
+    let rej_p = p_list(f.get(4).copied().unwrap_or("-"), ',', |x| {
+        let q: Vec<&str> = x.split(':').collect();
+        (q[0].parse().unwrap(), q[1].parse().unwrap(), unhex(q[2]))
+    });
+    DevSpec { mem: unhex(f[0]), no_access: p_ranges(f[1]), no_write: p_ranges(f[2]), rej_w: p_list(f[3], ',', |x| x.parse().unwrap()), rej_p }
 }
 
 fn p_val(s: &str) -> ValS {
@@ -440,6 +447,7 @@ struct Dev {
     no_access: Vec<(i64, u64)>,
     no_write: Vec<(i64, u64)>,
     rej_w: Vec<u64>,
+    rej_p: Vec<(u64, usize, Vec<u8>)>,
     wcount: u64,
     log: Vec<Access>,
 }
@@ -453,7 +461,7 @@ fn touches(rs: &[(i64, u64)], a: i64, l: usize) -> bool {
 
 impl Dev {
     fn new(d: &DevSpec) -> Self {
-        Dev { mem: d.mem.clone(), no_access: d.no_access.clone(), no_write: d.no_write.clone(), rej_w: d.rej_w.clone(), wcount: 0, log: vec![] }
+        Dev { mem: d.mem.clone(), no_access: d.no_access.clone(), no_write: d.no_write.clone(), rej_w: d.rej_w.clone(), rej_p: d.rej_p.clone(), wcount: 0, log: vec![] }
     }
     fn in_image(&self, a: i64, l: usize) -> bool {
         a >= 0 && (a as i128 + l as i128) <= self.mem.len() as i128
@@ -476,7 +484,17 @@ impl Device for Dev {
         let l = data.len();
         let k = self.wcount;
         self.wcount += 1;
-        if self.in_image(address, l) && !touches(&self.no_access, address, l) && !touches(&self.no_write, address, l) && !self.rej_w.contains(&k) {
+        let allowed = self.in_image(address, l) && !touches(&self.no_access, address, l) && !touches(&self.no_write, address, l) && !self.rej_w.contains(&k);
+        if let (true, Some((_, m, junk))) = (allowed, self.rej_p.iter().find(|p| p.0 == k).cloned()) {
+            // non-atomic rejection: part of the data (or junk) reaches the device, then an error
+            let mut left: Vec<u8> = data[..m.min(l)].to_vec();
+            left.extend_from_slice(&junk);
+            left.truncate(l);
+            self.mem[address as usize..address as usize + left.len()].copy_from_slice(&left);
+            self.log.push(Access { write: true, addr: address, len: l, data: left, ok: false });
+            return Err("device failed in the middle of the write".into());
+        }
+        if allowed {
             self.mem[address as usize..address as usize + l].copy_from_slice(data);
             self.log.push(Access { write: true, addr: address, len: l, data: data.to_vec(), ok: true });
             Ok(())
@@ -931,7 +949,7 @@ fn gen_case(rng: &mut Rng, undeclared: bool, thorough: bool) -> Case {
         }
     }
     // device script
-    let mut dev = DevSpec { mem, no_access: vec![], no_write: vec![], rej_w: vec![] };
+    let mut dev = DevSpec { mem, no_access: vec![], no_write: vec![], rej_w: vec![], rej_p: vec![] };
     if rng.chance(1, 8) {
         dev.no_access.push((rng.below(n_mem as u64) as i64, rng.range(1, 3)));
     }
@@ -941,6 +959,21 @@ fn gen_case(rng: &mut Rng, undeclared: bool, thorough: bool) -> Case {
     if rng.chance(1, 4) {
         for _ in 0..rng.range(1, 3) {
             dev.rej_w.push(rng.below(12));
+        }
+    }
+    if rng.chance(1, 3) {
+        for _ in 0..rng.range(1, 3) {
+            let k = rng.below(12);
+            if dev.rej_p.iter().all(|p| p.0 != k) {
+                let (n1, n2) = (rng.range(1, 8) as usize, rng.range(0, 3) as usize);
+                let (m, junk) = match rng.below(4) {
+                    0 => (n1, vec![]),          // first m bytes applied, then failure
+                    1 => (64, vec![]),          // fully applied, acknowledge lost
+                    2 => (0, rng.bytes(n1)),    // garbage left behind
+                    _ => (n2, rng.bytes(n2)),
+                };
+                dev.rej_p.push((k, m, junk));
+            }
         }
     }
     // history
